@@ -58,6 +58,34 @@ class DMLMixin:
         val = '-'.join(str(row[c]) for c in cols)
         return SQLError(1062, f"Duplicate entry '{val}' for key '{t.name}.{kname}'", '23000')
 
+    def _fk_check(self, t: Table, row: dict, changed=None):
+        """InnoDB checks the parent row when the child row is written"""
+        fks = self.fk_parents.get(t.name)
+        if not fks or not self.enforce_foreign_keys:
+            return
+        for name, ccols, ptable, pcols in fks:
+            if changed is not None and not any(c in changed for c in ccols):
+                continue
+            if any(c not in t.types for c in ccols):
+                continue
+            vals = [row[c] for c in ccols]
+            if any(v is None for v in vals):
+                continue
+            pt = self._tables.get(ptable)
+            if pt is None or any(c not in pt.types for c in pcols):
+                continue      # constraint on a table / column that no longer exists (dropped by a python migration)
+            order = sorted(range(len(pcols)), key=lambda i: pcols[i])
+            cols = tuple(pcols[i] for i in order)
+            probe = {pcols[i]: vals[i] for i in order}
+            try:
+                for c in cols:
+                    probe[c] = coerce(probe[c], pt.types[c], c)
+            except SQLError:
+                probe = None
+            if probe is None or not pt.index(cols).get(pt.key_of(probe, cols)):
+                raise SQLError(1452, f'Cannot add or update a child row: a foreign key constraint fails (`{t.name}`, CONSTRAINT `{name}` '
+                               f'FOREIGN KEY ({", ".join(ccols)}) REFERENCES `{ptable}` ({", ".join(pcols)}))', '23000')
+
     def _write_guard(self, t: Table, sess):
         d = t.dirty_by
         if d is not None and d is not sess and self.strict_isolation:
@@ -213,6 +241,7 @@ class DMLMixin:
             t.auto_inc = generated + 1
             if state['first_id'] is None:
                 state['first_id'] = generated
+        self._fk_check(t, new)
         t.insert(new, sess.undo)
         state['affected'] += 1
         self.fire_triggers(t, 'AFTER', 'INSERT', None, new, X)
@@ -252,6 +281,7 @@ class DMLMixin:
             d2 = t.find_duplicate(work, exclude=existing)
             if d2 is not None:
                 raise self._dup_error(t, d2[0], work)
+        self._fk_check(t, work, delta)
         t.update(existing, delta, sess.undo)
         state['affected'] += 2
         self.fire_triggers(t, 'AFTER', 'UPDATE', old, existing, X)
@@ -340,6 +370,7 @@ class DMLMixin:
                             d2 = t.find_duplicate(work, exclude=row)
                             if d2 is not None:
                                 raise self._dup_error(t, d2[0], work)
+                        self._fk_check(t, work, delta)
                         t.update(row, delta, sess.undo)
                         changed += 1
                     # MySQL fires the AFTER UPDATE trigger for every matched row, changed or not
